@@ -33,7 +33,7 @@ struct kase {
 	long hl, bl;               /* limits, UNLIM = unlimited */
 	int linger;
 	int big;                   /* named cuts instead of all cuts */
-	size_t M, B;               /* header measure / body size of the first message (reference) */
+	size_t M, B, T;            /* header measure / body size / trailer-section measure of the first message (reference) */
 	int complete;              /* the stream holds the complete first message */
 	int ncuts; size_t cuts[16];
 	uint64_t first, nseg;
@@ -71,7 +71,7 @@ static void measure(struct kase *k)
 	struct h1_opts o = { .kind = H1_REQUEST };
 	struct h1_result r;
 	h1_parse_stream(k->b, k->n, &o, &r);
-	if (r.nmsgs > 0) { k->M = r.msgs[0].line_octets; k->B = r.msgs[0].body_len; k->complete = 1; }
+	if (r.nmsgs > 0) { k->M = r.msgs[0].line_octets; k->B = r.msgs[0].body_len; k->T = r.msgs[0].trailer_line_octets; k->complete = 1; }
 	else { k->complete = 0; k->M = r.tail_has_head ? r.tail_line_octets : 0; k->B = 0; }
 	h1_result_free(&r);
 }
@@ -97,10 +97,24 @@ static void add_small(const char *cls, const unsigned char *b, size_t n)
 			struct kase *k = new_case();
 			k->b = b; k->n = n; k->hl = hls[i]; k->bl = bls[j]; k->linger = linger; k->big = 0;
 			snprintf(k->cls, sizeof k->cls, "%s", cls);
-			k->M = probe.M; k->B = probe.B; k->complete = probe.complete;
+			k->M = probe.M; k->B = probe.B; k->T = probe.T; k->complete = probe.complete;
 			k->nseg = nsegs_small(n);
 		}
 	}
+}
+
+/* a small stream with an explicit list of header limits (body unlimited), all segmentations */
+static void add_small_hl(const char *cls, const unsigned char *b, size_t n, const long *hls, int nh)
+{
+	struct kase probe; memset(&probe, 0, sizeof probe); probe.b = b; probe.n = n; measure(&probe);
+	for (int linger = 0; linger < 2; linger++)
+		for (int i = 0; i < nh; i++) {
+			struct kase *k = new_case();
+			k->b = b; k->n = n; k->hl = hls[i]; k->bl = UNLIM; k->linger = linger; k->big = 0;
+			snprintf(k->cls, sizeof k->cls, "%s", cls);
+			k->M = probe.M; k->B = probe.B; k->T = probe.T; k->complete = probe.complete;
+			k->nseg = nsegs_small(n);
+		}
 }
 
 static void add_big(const char *cls, const unsigned char *b, size_t n, int header_side)
@@ -115,7 +129,7 @@ static void add_big(const char *cls, const unsigned char *b, size_t n, int heade
 				k->hl = header_side || both ? lims[i] : UNLIM;
 				k->bl = !header_side || both ? lims[i] : UNLIM;
 				snprintf(k->cls, sizeof k->cls, "%s", cls);
-				k->M = probe.M; k->B = probe.B; k->complete = probe.complete;
+				k->M = probe.M; k->B = probe.B; k->T = probe.T; k->complete = probe.complete;
 				size_t c[] = { 1, 100, 101, (size_t)lims[i], (size_t)lims[i] + 1, 4096, 16383, 16384, 16385, 32768, n / 2, n - 1 };
 				for (size_t a = 0; a < sizeof c / sizeof c[0]; a++) {
 					int dup = 0;
@@ -144,6 +158,21 @@ static void build(void)
 	b = mk(&n, "POST /p HTTP/1.1\r\nX: y\r\n%s%s", ch10t, next); add_small("chunked+trailer", b, n);
 	b = mk(&n, "PUT /p HTTP/1.1\r\nExpect: 100-continue\r\n%s%s", cl10, next); add_small("expect+cl", b, n);
 	b = mk(&n, "GET /%s HTTP/1.1\r\nHost: a\r\n\r\n%s", x60, next); add_small("long-request-line", b, n);
+	/* many short continuation (obs-fold) lines: every single line and the non-folded lines stay
+	 * below the limit, only the folded lines together exceed it — in the header section and in
+	 * the trailer section (same parser).  Limits: the size of the non-folded lines alone (N),
+	 * total-1, total. */
+	{
+		char *folds12 = rep(" aaaa\r\n", 12), *folds16 = rep(" aaaa\r\n", 16);
+		b = mk(&n, "POST /p HTTP/1.1\r\nX-Folded: s\r\n%s%s%s", folds12, cl10, next);
+		{ struct kase pr; memset(&pr, 0, sizeof pr); pr.b = b; pr.n = n; measure(&pr);
+		  long N = (long)pr.M - 12 * 5, hls[] = { N, (long)pr.M - 1, (long)pr.M };
+		  add_small_hl("folded-header-lines+cl", b, n, hls, 3); }
+		b = mk(&n, "POST /p HTTP/1.1\r\nX: y\r\nTransfer-Encoding: chunked\r\n\r\n4\r\nabcd\r\n6\r\nefghij\r\n0\r\nT: v\r\n%s\r\n%s", folds16, next);
+		{ struct kase pr; memset(&pr, 0, sizeof pr); pr.b = b; pr.n = n; measure(&pr);
+		  long Tn = (long)pr.T - 16 * 5, hls[] = { (long)pr.M + Tn, (long)(pr.M + pr.T) - 1, (long)(pr.M + pr.T) };
+		  add_small_hl("folded-trailer-lines", b, n, hls, 3); }
+	}
 	}
 	if (only == 1) goto done;
 
@@ -153,6 +182,9 @@ static void build(void)
 	b = mk(&n, "GET / HTTP/1.1\r\nX: %s", a20k); add_big("endless-header-line", b, n, 1);
 	b = mk(&n, "GET / HTTP/1.1\r\n%s", lines2k); add_big("endless-header-lines", b, n, 1);
 	b = mk(&n, "GET / HTTP/1.1\r\nX: y\r\n %s", a20k); add_big("endless-continuation-line", b, n, 1);
+	{ char *folds8k = rep(" aaaa\r\n", 8000);
+	  b = mk(&n, "GET / HTTP/1.1\r\nX: y\r\n%s\r\n%s", folds8k, next); add_big("folded-8000-header-lines", b, n, 1);
+	  b = mk(&n, "POST /p HTTP/1.1\r\nTransfer-Encoding: chunked\r\n\r\n3\r\nabc\r\n0\r\nT: v\r\n%s\r\n%s", folds8k, next); add_big("folded-8000-trailer-lines", b, n, 1); }
 	b = mk(&n, "POST /p HTTP/1.1\r\nContent-Length: 60000\r\n\r\n%s%s", a20k, next); add_big("cl-60000", b, n, 0);
 	b = mk(&n, "POST /p HTTP/1.1\r\nContent-Length: 99999999\r\n\r\n%s", a20k); add_big("cl-huge-partial", b, n, 0);
 	b = mk(&n, "POST /p HTTP/1.1\r\nTransfer-Encoding: chunked\r\n\r\nEA60\r\n%s\r\n0\r\n\r\n%s", a20k, next); add_big("chunk-60000", b, n, 0);
@@ -216,7 +248,8 @@ static void item(uint64_t it)
 	srv_pump(&s);
 	srv_parse_responses(&s);
 
-	int over_h = k->hl != UNLIM && (long)k->M > k->hl;
+	/* over the header limit: the header section, or (leniently: on its own) the trailer section */
+	int over_h = k->hl != UNLIM && ((long)k->M > k->hl || (long)k->T > k->hl);
 	int over_b = k->bl != UNLIM && (long)k->B > k->bl;
 	if (!k->big || seg == 0)
 		mc_observe("%s hl=%ld bl=%ld linger=%d M=%zu B=%zu seg=%llu -> delivered=%d final=%d closed=%d max_in(head=%zu body=%zu)", k->cls, k->hl, k->bl, k->linger,
@@ -234,6 +267,8 @@ static void item(uint64_t it)
 			failk("delivered-over-body-limit", k, "request %d delivered with a %zu-byte body", i, s.req[i].body_len);
 		if (i < ref.nmsgs && k->hl != UNLIM && (long)ref.msgs[i].line_octets > k->hl)
 			failk("delivered-over-header-limit", k, "request %d delivered; its request line + header lines measure %zu bytes", i, ref.msgs[i].line_octets);
+		if (i < ref.nmsgs && k->hl != UNLIM && (long)ref.msgs[i].trailer_line_octets > k->hl)
+			failk("delivered-over-header-limit-in-trailers", k, "request %d delivered; its trailer lines alone measure %zu bytes", i, ref.msgs[i].trailer_line_octets);
 		if (i >= ref.nmsgs) failk("delivered-unknown-message", k, "request %d delivered but the stream holds only %d complete messages", i, ref.nmsgs);
 	}
 	if (k->complete && !over_h && !over_b) { if (s.nreq > 0) MC_COUNT("within_limits_delivered"); else MC_COUNT("within_limits_not_delivered"); }
